@@ -84,6 +84,20 @@ def norm_points(pts):
     return out
 
 
+def _mapping_form(d, form):
+    """The same key/value pairs as another Mapping type (every Mapping is a documented TagSet / FieldSet)."""
+    import collections
+    import types
+
+    if form == "ordered":
+        return collections.OrderedDict(d)
+    if form == "proxy":
+        return types.MappingProxyType(dict(d))
+    if form == "chainmap":
+        return collections.ChainMap(dict(d))
+    return dict(d)
+
+
 def real_update_kwargs(args):
     rt, rm, rtags, rfields = real_updaters()
     kw = {}
@@ -95,10 +109,10 @@ def real_update_kwargs(args):
         kw["measurement"] = a["static"] if "static" in a else rm[a["call"]]
     a = args.get("tags")
     if a:
-        kw["tags"] = dict(a["static"]) if "static" in a else rtags[a["call"]]
+        kw["tags"] = _mapping_form(a["static"], args.get("mapping_form")) if "static" in a else rtags[a["call"]]
     a = args.get("fields")
     if a:
-        kw["fields"] = dict(a["static"]) if "static" in a else rfields[a["call"]]
+        kw["fields"] = _mapping_form(a["static"], args.get("mapping_form")) if "static" in a else rfields[a["call"]]
     for k in ("unset_tags", "unset_fields"):
         if args.get(k) is not None:
             v = copy.copy(args[k])
@@ -308,7 +322,17 @@ class Session:
             if not via_h and mfilter:
                 kw["measurement"] = mfilter
             out.exp = len(ps)
-            out.real = self._call(tgt.insert_multiple, ps, **kw)
+            arg = ps
+            form = op.get("ps_form")
+            if form == "tuple":
+                arg = tuple(ps)
+            elif form == "gen":
+                arg = (p_ for p_ in ps)
+            elif form == "iter":
+                arg = iter(ps)
+            elif form == "values":
+                arg = {i: p_ for i, p_ in enumerate(ps)}.values()
+            out.real = self._call(tgt.insert_multiple, arg, **kw)
             t1 = to_us(datetime.now(timezone.utc))
             for s, p in zip(op["ps"], ps):
                 mdl.insert(self._model_point(s, m if via_h else mfilter, p, t0, t1, out))
@@ -391,7 +415,16 @@ class Session:
             keys = op["keys"]
             keys = keys if isinstance(keys, str) else tuple(keys)
             out.exp = mdl.select(keys, q_ast, sel_m)
-            r = self._call(tgt.select, keys, q) if via_h else self._call(tgt.select, keys, q, mfilter)
+            arg = keys
+            kform = op.get("keys_form")
+            if not isinstance(keys, str):
+                if kform == "list":
+                    arg = list(keys)
+                elif kform == "gen":
+                    arg = (k_ for k_ in keys)
+                elif kform == "keysview":
+                    arg = {k_: None for k_ in keys}.keys() if len(set(keys)) == len(keys) else list(keys)
+            r = self._call(tgt.select, arg, q) if via_h else self._call(tgt.select, arg, q, mfilter)
             out.real = self._norm_select(r, keys)
         elif kind == "all":
             s = op.get("sorted", True)
